@@ -126,6 +126,71 @@ def run_witness(binpath, w):
                 bad_items = [r for r in ex.map(one, jobs) if r]
             return {"cmd": "check <%d generated inputs>" % len(jobs), "exit": 0, "stdout": "", "stderr": "",
                     "reproduced": bool(bad_items), "why": "; ".join(bad_items[:5])[:1500], "n_inputs": len(jobs)}
+        elif kind == "fix-corpus":
+            # C22 bounded stand-in: run each program, apply `check --fix` until nothing changes,
+            # require that the result still parses (no new error diagnostics), prints the same output
+            # and ends with the same status, and that a fixed point is reached within max_rounds
+            from concurrent.futures import ThreadPoolExecutor
+            progs = list(w["input"])
+            import glob
+            for fp in sorted(glob.glob(os.path.join(REPO, w.get("fixtures", "src/test_files/check_fix/*.gdn")))):
+                try:
+                    progs.append(open(fp, encoding="utf-8").read().split("// args:")[0])
+                except Exception:
+                    pass
+            max_rounds = w.get("max_rounds", 5)
+
+            def errors_of(f):
+                p = subprocess.run([binpath, "check", "--json", f], capture_output=True, text=True, timeout=30, cwd=tmpdir)
+                if p.returncode == 101 or "panicked at" in p.stderr:
+                    return None
+                n = 0
+                for ln in p.stdout.split("\n"):
+                    try:
+                        if json.loads(ln).get("severity") == "error":
+                            n += 1
+                    except Exception:
+                        pass
+                return n
+
+            def one(idx):
+                text = progs[idx]
+                f = os.path.join(tmpdir, "p%d.gdn" % idx)
+                open(f, "w", encoding="utf-8").write(text)
+                try:
+                    e0 = errors_of(f)
+                    r0 = subprocess.run([binpath, "run", f], capture_output=True, text=True, timeout=30, cwd=tmpdir)
+                    cur = text
+                    rounds = 0
+                    while True:
+                        p = subprocess.run([binpath, "check", "--fix", "--stdout", f], capture_output=True, text=True, timeout=30, cwd=tmpdir)
+                        if p.returncode == 101 or "panicked at" in p.stderr:
+                            return "program %d: check --fix panicked: %s" % (idx, p.stderr[-200:])
+                        new = p.stdout
+                        if new == cur or new.strip() == "":
+                            break
+                        rounds += 1
+                        if rounds > max_rounds:
+                            return "program %d: no fixed point after %d rounds of --fix" % (idx, max_rounds)
+                        cur = new
+                        open(f, "w", encoding="utf-8").write(cur)
+                    if cur == text:
+                        return None
+                    e1 = errors_of(f)
+                    if e0 == 0 and e1 != 0:
+                        return "program %d: fixed program no longer checks cleanly (%s error diagnostics): %r -> %r" % (idx, e1, text[:120], cur[:160])
+                    if e0 == 0 and r0.returncode == 0 and "Error" not in r0.stderr:
+                        r1 = subprocess.run([binpath, "run", f], capture_output=True, text=True, timeout=30, cwd=tmpdir)
+                        if r1.stdout != r0.stdout or r1.returncode != r0.returncode:
+                            return "program %d: output changed after --fix: %r -> %r (source %r -> %r)" % (idx, r0.stdout[-80:], r1.stdout[-80:], text[:120], cur[:160])
+                except subprocess.TimeoutExpired:
+                    return "program %d: timeout" % idx
+                return None
+            with ThreadPoolExecutor(max_workers=8) as ex:
+                bad_items = [r for r in ex.map(one, range(len(progs))) if r]
+            return {"cmd": "check --fix <%d programs>" % len(progs), "exit": 0, "stdout": "", "stderr": "",
+                    "reproduced": bool(bad_items), "why": "; ".join(bad_items[:4])[:1800], "n_inputs": len(progs),
+                    "failing_inputs": [progs[int(re.match(r"program (\d+)", b).group(1))] for b in bad_items][:6]}
         elif kind == "json-session":
             f = os.path.join(tmpdir, "s.jsonl")
             with open(f, "w", encoding="utf-8") as fh:
